@@ -7,7 +7,7 @@ From RtrV Require Import Pfx.TrieModel Pfx.TrieInv.
 From RtrV Require Import Base.CSem Gen.Generated Rtr.RtrModel Rtr.RelFrame Rtr.RecvBase Rtr.SendBase Rtr.RecvProofs
      Rtr.RecvChunk Rtr.RecvTable Rtr.SendProofs Rtr.SendSites.
 From RtrV Require Rtr.RecvExamples.   (* concrete instances *)
-From RtrV Require Import Base.Mem Gen.GeneratedMem Rtr.CheckSizeTie.
+From RtrV Require Import Base.Mem Gen.GeneratedMem Rtr.CheckSizeTie Rtr.PrefixValidTie.
 Local Open Scope Z_scope.
 
 (* ---- (1) termination: all model functions are structural recursions (on the script, or on explicit fuel);
@@ -167,6 +167,17 @@ Theorem C04_check_size_reads_inside : forall p,
   rtr_pdu_check_size_gen (to_host p) (Some 0) <> None.
 Proof. exact check_size_reads_inside. Qed.
 
+(* the check that keeps such prefixes out, rtr_prefix_pdu_is_valid, as translated from /repo on every run (its loop
+   over the address words unrolled; masks and shifts with C semantics): equal to the model's prefix_lengths_valid on
+   every Prefix PDU of the right size (memory image: header, prefix words and AS number in host order), and - since
+   it returns a value - without a load outside the PDU or an undefined shift *)
+Theorem C04_prefix_check_translated : forall p,
+  Forall byte_ok p ->
+  (nthb p 1 = c_IPV4_PREFIX /\ zlen p = sizeof_pdu_ipv4) \/ (nthb p 1 = c_IPV6_PREFIX /\ zlen p = sizeof_pdu_ipv6) ->
+  rtr_prefix_pdu_is_valid_gen (to_host_pfx p) (Some 0) (nthb p 1) = Some (b2z (prefix_lengths_valid p)).
+Proof. exact prefix_valid_translated. Qed.
+
+Print Assumptions C04_prefix_check_translated.
 Print Assumptions C04_stored_prefix_key_ok.
 Print Assumptions C04_check_size_translated.
 Print Assumptions C04_check_size_reads_inside.
